@@ -25,6 +25,13 @@ def rand_unitary(nr, n, kind):
         P = numpy.eye(n)[nr.permutation(n)]
         ph = numpy.exp(1j * nr.uniform(0, 2 * numpy.pi, n))
         return (P * ph).astype(numpy.complex128)
+    if kind == "reflection":      # real diagonal of +-1 (at least one -1)
+        sg = nr.choice([-1.0, 1.0], n)
+        sg[nr.randint(n)] = -1.0
+        return numpy.diag(sg).astype(numpy.complex128)
+    if kind == "signed-permutation":
+        P = numpy.eye(n)[nr.permutation(n)]
+        return (P * nr.choice([-1.0, 1.0], n)).astype(numpy.complex128)
     if kind == "pivot":          # vanishing leading minor: forces row exchange
         Q = rand_unitary(nr, n, "generic")
         Pm = numpy.eye(n)
@@ -89,7 +96,7 @@ def run(ctx):
     for case in range(ncases):
         norb = rng.choice([1, 2, 2, 3]) if quick else rng.choice([1, 2, 3, 3])
         form = rng.choice(["restricted", "restricted", "blockdiag", "spinmix"])
-        kind = rng.choice(["generic", "real", "permutation", "pivot", "near-identity"])
+        kind = rng.choice(["generic", "real", "permutation", "pivot", "near-identity", "reflection", "signed-permutation"])
         if form == "spinmix":
             wk = "spinbroken"
             R = rand_unitary(nr, 2 * norb, kind)
